@@ -80,9 +80,9 @@ Qed.
 
 (* equations of the commutative monoid over opaque summaries *)
 Ltac smon :=
-  unfold seq, splus, szero, peq, padd, pzero;
-  cbn [s_known s_unknown s_nounit s_text fst snd];
-  repeat split; intros; try ring; try lia.
+  unfold seq, splus, szero; cbn [s_known s_unknown s_nounit s_text];
+  repeat split; intros; unfold peq, padd, pzero; cbn [fst snd];
+  repeat split; try ring; try lia.
 
 Lemma splus_comm a b : a ⊕ b ≡ b ⊕ a.
 Proof. smon. Qed.
@@ -450,7 +450,7 @@ Proof.
   unfold total, Group.iter, set_known, copt; cbn [known unknown no_unit other].
   repeat rewrite sum_contrib_app.
   destruct p; cbn [pq_all flat_map pq_eqb opt_list]; repeat rewrite sum_contrib_app;
-    rewrite sum_contrib_cons; unfold sum_contrib at 1; cbn [map ssum]; smon.
+    rewrite sum_contrib_cons; change (sum_contrib T []) with szero; smon.
 Qed.
 
 Lemma sumU_insert T k s U :
